@@ -21,15 +21,18 @@ from vakt.rules.base import Rule
 import vakt.rules as R
 
 MODULE = 'Props.C19'
+EXTRA_IMPORTS = ['Props.C19M4']
 THEOREMS = ['Vakt.C19.never_dropped', 'Vakt.C19.irreversible_untouched_reported', 'Vakt.C19.rename_table_ok',
             'Vakt.C19.m3_irreversible_complete', 'Vakt.C19.m3_custom_kept', 'Vakt.C19.m3_rule_roundtrip',
-            'Vakt.C19.m4down_spec', 'Vakt.C19.m2_rule_roundtrip',
+            'Vakt.C19.m4down_spec', 'Vakt.C19.m2_rule_roundtrip', 'Vakt.C19.m4up_preserves_policy', 'Vakt.C19.m4down_m4up',
+            'Vakt.C19.m4up_adds_compiled', 'Vakt.C19.m4up_failure',
             'Vakt.C19.probes_ok']
 FLOOR = {'quick': 80, 'thorough': 1500}
 ASSUMPTIONS = ['MongoDB is the in-process fake client (documents deep-copied in and out, unique _id); real index operations '
                'and BSON corner cases are behind it',
-               'migration 4 `up` re-saves every policy through MongoStorage (retrieve_all + update): it is exercised on the '
-               'implementation and judged by the direct oracle, its document rewrite is not modelled']
+               'migration 4 `up` re-saves every policy through MongoStorage (retrieve_all + update): modelled as reading the '
+               'document with the storage-codec model and $set-ting the freshly prepared document onto it (Props/C19M4.lean); '
+               'documents with rule classes outside the codec table (custom classes) are judged by the direct oracle only']
 
 # a user-defined rule class living in an importable module, as a third-party rule would
 _mod = types.ModuleType('myapp')
@@ -195,7 +198,8 @@ class LogCatch(logging.Handler):
         self.msgs.append(record.getMessage())
 
 
-STEPS = {('up', 2): 'm2up', ('down', 2): 'm2down', ('up', 3): 'm3up', ('down', 3): 'm3down', ('down', 4): 'm4down'}
+STEPS = {('up', 2): 'm2up', ('down', 2): 'm2down', ('up', 3): 'm3up', ('down', 3): 'm3down', ('down', 4): 'm4down',
+         ('up', 4): 'm4up'}
 LAYOUT_VERSION = {110: 1, 111: 2, 120: 3, 140: 4}
 
 
@@ -353,6 +357,10 @@ def run(ctx):
     for line, (desc, after, before, changed), m in zip(lines, meta, model):
         if m == 'bad-op':
             raise Broken('driver rejected: %s' % line[:300])
+        out.count('model:%s:%s' % (line.split(' ')[1], m.split(' ')[0]))
+        if m == 'unmodelled':
+            out.unmodelled += 1         # migration 4 up over a document the codec model does not cover (custom rule classes)
+            continue
         if m.startswith('ok '):
             # decode the model's document and compare order-free
             want = _decode_model_doc(m[3:])
